@@ -7,3 +7,5 @@ import PMH.Props.C11
 #print axioms PMH.C11.no_bad_indices
 #print axioms PMH.OrdP.hashSet_spec
 #print axioms PMH.OrdP.update_spec
+#print axioms PMH.C11.signature_is_combined_hash_of_block
+#print axioms PMH.C11.signature_position_depends_on_spelled_hashes
